@@ -436,9 +436,15 @@ class BaseFeatureWriter:
             x, y = collapse_varscalar(x_value), collapse_varscalar(y_value)
         else:
             if anchor is None:
-                if glyphName not in self.context.font:
+                # look the glyph up in the (pre-processed) glyph set being compiled,
+                # like the mark writer does, not in the source font: filters such as
+                # propagateAnchors only edit the glyph set unless inplace=True
+                glyphSet = getattr(self.context, "_anchorGlyphSet", None)
+                if glyphSet is None:
+                    glyphSet = self.context._anchorGlyphSet = self.getOrderedGlyphSet()
+                if glyphName not in glyphSet:
                     return None
-                glyph = self.context.font[glyphName]
+                glyph = glyphSet[glyphName]
                 anchors = [
                     anchor for anchor in glyph.anchors if anchor.name == anchorName
                 ]
